@@ -21,7 +21,9 @@ Definition mv_ok (v : vam) (lr : lref) (m : Defrag.move) : Prop :=
               a_lref a = lr /\ a_lref b = lr /\ a_size a = a_size b /\ a_align a = a_align b /\
               (* the source is the caller's object at the recorded place, the temporary sits at the destination *)
               a_blk a = Defrag.m_srcblk m /\ a_handle a = Defrag.m_srcoff m /\ a_temp a = false /\
-              a_blk b = Defrag.m_dstblk m /\ a_handle b = Defrag.m_dstoff m /\ a_temp b = true.
+              a_blk b = Defrag.m_dstblk m /\ a_handle b = Defrag.m_dstoff m /\ a_temp b = true /\
+              (* the temporary carries the source's persistent-map flag (the destination block was mapped for it) *)
+              a_persist b = a_persist a.
 
 Definition moves_ok (v : vam) (lr : lref) (mvs : list Defrag.move) : Prop :=
   NoDup (mv_slots mvs) /\ Forall (mv_ok v lr) mvs.
